@@ -1,0 +1,267 @@
+//go:build verif
+
+// Contracts for package statefulset, read by the verification-condition
+// generator in /verif/engine.  This file contains comments only: with the
+// build tag off it is not compiled, with the tag on it adds no code.
+package statefulset
+
+//@ const RevisionLabel = "controller-revision-hash"
+//@ const PodNameLabel = "statefulset.kubernetes.io/pod-name"
+
+// ---- pod vocabulary ------------------------------------------------------------------------------
+// ordName / parentName: the ordinal and parent encoded in a pod name (what the regular
+// expression (.*)-([0-9]+)$ and strconv.ParseInt(…, 10, 32) extract); assumed, see getParentNameAndOrdinal.
+//@ spec func ordName(name string) int
+//@ spec func parentName(name string) string
+//@ axiom ordName_range: forall s string :: {ordName(s)} 0 - 1 <= ordName(s) && ordName(s) <= MaxInt32
+//@ spec func ordOf(p *v1.Pod) int = ordName(p.Name)
+//@ spec func isCreatedS(p *v1.Pod) bool = p.Status.Phase != ""
+//@ spec func isFailedS(p *v1.Pod) bool = p.Status.Phase == "Failed"
+//@ spec func isSucceededS(p *v1.Pod) bool = p.Status.Phase == "Succeeded"
+//@ spec func isTerminatingS(p *v1.Pod) bool = p.DeletionTimestamp != nil
+//@ spec func isRunningAndReadyS(p *v1.Pod) bool = p.Status.Phase == "Running" && condsReady(p.Status.Conditions)
+//@ spec func isHealthyS(p *v1.Pod) bool = isRunningAndReadyS(p) && !isTerminatingS(p)
+//@ spec func revOf(p *v1.Pod) string = p.Labels[RevisionLabel]
+
+//@ func getParentNameAndOrdinal
+//@   trusted "regexp (.*)-([0-9]+)$ and strconv.ParseInt are outside the translator's reach; validated by a bounded conformance run"
+//@   results parent, ordinal
+//@   requires pod != nil
+//@   pure
+//@   ensures parent == parentName(pod.Name) && ordinal == ordName(pod.Name)
+
+//@ func getParentName
+//@   pure
+//@   requires pod != nil
+//@   ensures result == parentName(pod.Name)
+//@ func getOrdinal
+//@   pure
+//@   requires pod != nil
+//@   ensures result == ordOf(pod)
+//@ func isMemberOf
+//@   pure
+//@   requires pod != nil && set != nil
+//@   ensures [C10] result == (parentName(pod.Name) == set.Name)
+//@ func isRunningAndReady
+//@   pure
+//@   requires pod != nil
+//@   ensures result == isRunningAndReadyS(pod)
+//@ func isCreated
+//@   pure
+//@   requires pod != nil
+//@   ensures result == isCreatedS(pod)
+//@ func isFailed
+//@   pure
+//@   requires pod != nil
+//@   ensures result == isFailedS(pod)
+//@ func isSucceeded
+//@   pure
+//@   requires pod != nil
+//@   ensures result == isSucceededS(pod)
+//@ func isTerminating
+//@   pure
+//@   requires pod != nil
+//@   ensures result == isTerminatingS(pod)
+//@ func isHealthy
+//@   pure
+//@   requires pod != nil
+//@   ensures result == isHealthyS(pod)
+//@ func allowsBurst
+//@   pure
+//@   requires set != nil
+//@   ensures [C05,C14] result == (set.Spec.PodManagementPolicy == "Parallel")
+//@ func getPodRevision
+//@   pure
+//@   requires pod != nil
+//@   ensures result == revOf(pod)
+//@ func getPodName
+//@   pure
+//@   requires set != nil
+//@   ensures [C06] result == sprintf("%s-%d", set.Name, ordinal)
+//@ func getPersistentVolumeClaimName
+//@   pure
+//@   requires set != nil && claim != nil
+//@   ensures [C06] result == sprintf("%s-%s-%d", claim.Name, set.Name, ordinal)
+//@ func setPodRevision
+//@   requires pod != nil
+//@   modifies pod.Labels, all(map[string]string)
+//@   ensures pod.Labels != nil && revOf(pod) == revision
+//@   ensures [C06] forall k string :: {pod.Labels[k]} k != RevisionLabel ==> pod.Labels[k] == old(pod.Labels[k]) && pod.Labels.has(k) == old(pod.Labels.has(k))
+
+// ---- reconcile vocabulary (ghost state shared between updateStatefulSet and the pod control interface) ----
+//@ ghost global gSnap []*v1.Pod      -- the pods the reconcile was given (the snapshot)
+//@ ghost global gR int               -- spec.replicas
+//@ ghost global gS set[int]          -- the delete-slots annotation, decoded
+//@ ghost global gStrategy string     -- spec.updateStrategy.type
+//@ ghost global gPartition int       -- rolling-update partition (0 when the block is absent)
+//@ ghost global gCurRev string
+//@ ghost global gUpdRev string       -- name of the update revision
+//@ ghost global gMonotonic bool      -- pod management policy is not Parallel
+//@ ghost global gDeleting bool       -- the set carries a deletion timestamp
+//@ ghost global gNact int            -- pod create/delete calls issued so far in this reconcile
+//@ ghost global gActOrd int          -- ordinal of the first of them
+//@ ghost global gCreated set[int]    -- ordinals at which a create was issued
+//@ ghost global gReplaceDue set[int] -- ordinals whose Failed/Succeeded pod was deleted in order to be replaced
+//@ ghost global gDeleted set[int]    -- pods (references) for which a delete was issued
+//@ ghost global gUpdDeletes int      -- deletes justified only by the pod's revision
+//@ ghost global gAlloc0 int          -- allocation mark at the start of the reconcile: objects at or above it were made by this reconcile
+
+//@ spec func desiredG(o int) bool = desired(gR, gS, o)
+//@ spec func inSnap(p *v1.Pod) bool = exists k int :: {gSnap[k]} 0 <= k && k < len(gSnap) && gSnap[k] == p
+//@ spec func condemnedP(p *v1.Pod) bool = inSnap(p) && ordOf(p) >= 0 && !desiredG(ordOf(p))
+//@ spec func replaceable(p *v1.Pod) bool = inSnap(p) && desiredG(ordOf(p)) && (isFailedS(p) || isSucceededS(p))
+//@ spec func outdated(p *v1.Pod) bool = gStrategy == "RollingUpdate" && ordOf(p) >= gPartition && revOf(p) != gUpdRev
+//@ spec func vacant(o int) bool = desiredG(o) && (forall k int :: {gSnap[k]} 0 <= k && k < len(gSnap) ==> ordOf(gSnap[k]) != o)
+//@ spec func snapHealthyAt(o int) bool = exists k int :: {gSnap[k]} 0 <= k && k < len(gSnap) && ordOf(gSnap[k]) == o && isRunningAndReadyS(gSnap[k]) && !isTerminatingS(gSnap[k])
+//@ spec func snapReadyAt(o int) bool = exists k int :: {gSnap[k]} 0 <= k && k < len(gSnap) && ordOf(gSnap[k]) == o && isRunningAndReadyS(gSnap[k])
+//@ spec func snapUpdatedAt(o int) bool = exists k int :: {gSnap[k]} 0 <= k && k < len(gSnap) && ordOf(gSnap[k]) == o && revOf(gSnap[k]) == gUpdRev && isRunningAndReadyS(gSnap[k]) && !isTerminatingS(gSnap[k])
+
+//@ interface StatefulPodControlInterface.DeleteStatefulPod
+//@   params spc, set, pod
+//@   requires pod != nil && set != nil
+//@   profile defaulted requires [C03] mustgo: condemnedP(pod) || replaceable(pod) || outdated(pod)
+//@   profile defaulted requires [C11] notdeleting: !gDeleting
+//@   profile defaulted requires [C05] onestep: gMonotonic ==> gNact == 0
+//@   profile defaulted requires [C05] scaleinready: gMonotonic && condemnedP(pod) ==> (forall o int32 :: desiredG(o) ==> snapReadyAt(o))
+//@   profile defaulted requires [C05] scaleintop: gMonotonic && condemnedP(pod) ==> (forall k int :: {gSnap[k]} 0 <= k && k < len(gSnap) && condemnedP(gSnap[k]) ==> ordOf(gSnap[k]) <= ordOf(pod))
+//@   profile defaulted requires [C05] updatelast: gMonotonic && !condemnedP(pod) && !replaceable(pod) ==> (forall k int :: {gSnap[k]} 0 <= k && k < len(gSnap) ==> !condemnedP(gSnap[k])) && (forall o int32 :: desiredG(o) ==> snapHealthyAt(o) || o == ordOf(pod))
+//@   profile defaulted requires [C07] forupdate: !condemnedP(pod) && !replaceable(pod) ==> gStrategy != "OnDelete" && ordOf(pod) >= gPartition && revOf(pod) != gUpdRev && gUpdDeletes == 0 && (forall o int32 :: o > ordOf(pod) && desiredG(o) ==> snapUpdatedAt(o))
+//@   modifies ghost gNact, gActOrd, gDeleted, gReplaceDue, gUpdDeletes
+//@   noalloc
+//@   ensures gNact == old(gNact) + 1 && gActOrd == ite(old(gNact) == 0, ordOf(pod), old(gActOrd))
+//@   ensures gDeleted == store(old(gDeleted), pod, true)
+//@   ensures gReplaceDue == ite(replaceable(pod), store(old(gReplaceDue), ordOf(pod), true), old(gReplaceDue))
+//@   ensures gUpdDeletes == old(gUpdDeletes) + ite(!condemnedP(pod) && !replaceable(pod), 1, 0)
+
+//@ interface StatefulPodControlInterface.CreateStatefulPod
+//@   params spc, set, pod
+//@   requires pod != nil && set != nil
+//@   profile defaulted requires [C04,C11] notdeleting: !gDeleting
+//@   profile defaulted requires [C01,C04] atdesired: desiredG(ordOf(pod)) && !inSnap(pod) && !isCreatedS(pod)
+//@   profile defaulted requires [C04] vacantorreplaced: vacant(ordOf(pod)) || gReplaceDue[ordOf(pod)]
+//@   profile defaulted requires [C04] once: !gCreated[ordOf(pod)]
+//@   profile defaulted requires [C05] onestep: gMonotonic ==> gNact == 0 || gActOrd == ordOf(pod)
+//@   profile defaulted requires [C05] predecessors: gMonotonic ==> (forall o int32 :: 0 <= o && o < ordOf(pod) && desiredG(o) ==> snapHealthyAt(o))
+//@   modifies ghost gNact, gActOrd, gCreated
+//@   noalloc
+//@   ensures gNact == old(gNact) + 1 && gActOrd == ite(old(gNact) == 0, ordOf(pod), old(gActOrd))
+//@   ensures gCreated == store(old(gCreated), ordOf(pod), true)
+
+//@ interface StatefulPodControlInterface.UpdateStatefulPod
+//@   params spc, set, pod
+//@   requires pod != nil && set != nil
+//@   profile defaulted requires [C10] copyonly: pod >= gAlloc0
+//@   modifies pod.Name, pod.Namespace, pod.Labels, pod.Spec, map(pod.Labels)
+
+//@ sortspec ascendingOrdinal: ordOf(a) <= ordOf(b)
+
+//@ func ApplyRevision
+//@   trusted "strategicpatch.StrategicMergePatch and the JSON codecs are outside the translator's reach; the revision data only carries spec.template"
+//@   results restored, err
+//@   requires set != nil && revision != nil
+//@   ensures err == nil ==> restored != nil && fresh(restored)
+//@   ensures err == nil ==> restored.Name == set.Name && restored.Namespace == set.Namespace && restored.UID == set.UID
+//@   ensures err == nil ==> restored.Spec.UpdateStrategy.Type == set.Spec.UpdateStrategy.Type && restored.Status.CurrentReplicas == set.Status.CurrentReplicas && restored.Spec.ServiceName == set.Spec.ServiceName
+//@   ensures err == nil ==> (restored.Spec.UpdateStrategy.RollingUpdate == nil) == (set.Spec.UpdateStrategy.RollingUpdate == nil)
+//@   ensures err == nil && set.Spec.UpdateStrategy.RollingUpdate != nil ==> fresh(restored.Spec.UpdateStrategy.RollingUpdate) && (restored.Spec.UpdateStrategy.RollingUpdate.Partition == nil) == (set.Spec.UpdateStrategy.RollingUpdate.Partition == nil)
+//@   ensures err == nil && set.Spec.UpdateStrategy.RollingUpdate != nil && set.Spec.UpdateStrategy.RollingUpdate.Partition != nil ==> fresh(restored.Spec.UpdateStrategy.RollingUpdate.Partition) && deref(restored.Spec.UpdateStrategy.RollingUpdate.Partition) == deref(set.Spec.UpdateStrategy.RollingUpdate.Partition)
+
+// usesCurrent: the condition under which newVersionedStatefulSetPod builds the pod from the current revision
+//@ spec func usesCurrent(cs *apps.StatefulSet, ordinal int) bool = (cs.Spec.UpdateStrategy.Type == "RollingUpdate" && cs.Spec.UpdateStrategy.RollingUpdate == nil && ordinal < cs.Status.CurrentReplicas) || (cs.Spec.UpdateStrategy.RollingUpdate != nil && ordinal < deref(cs.Spec.UpdateStrategy.RollingUpdate.Partition))
+
+//@ func newVersionedStatefulSetPod
+//@   trusted "temporarily assumed: built from newStatefulSetPod (see C06)"
+//@   requires currentSet != nil && updateSet != nil
+//@   requires currentSet.Spec.UpdateStrategy.RollingUpdate != nil ==> currentSet.Spec.UpdateStrategy.RollingUpdate.Partition != nil
+//@   requires 0 <= ordinal
+//@   ensures result != nil && fresh(result) && ordOf(result) == ordinal && !isCreatedS(result) && !isTerminatingS(result)
+//@   ensures [C07] revOf(result) == ite(usesCurrent(currentSet, ordinal), currentRevision, updateRevision)
+
+//@ func identityMatches
+//@   trusted "temporarily assumed (see C06)"
+//@   requires set != nil && pod != nil
+//@   pure
+//@ func storageMatches
+//@   trusted "temporarily assumed (see C06)"
+//@   requires set != nil && pod != nil
+//@   pure
+
+//@ spec func isNewP(p *v1.Pod) bool = p >= gAlloc0 && !isCreatedS(p) && !isTerminatingS(p)
+//@ spec func inRangeE(o int, rc int, E set[int]) bool = 0 <= o && o < rc && !E[o]
+
+//@ func defaultStatefulSetControl.updateStatefulSet
+//@   profiles defaulted, crd
+//@   results statusp, err
+//@   requires ssc != nil && set != nil && currentRevision != nil && updateRevision != nil
+//@   requires ssc.podControl != nil && ssc.recorder != nil
+//@   requires set.Spec.Replicas != nil && deref(set.Spec.Replicas) >= 0
+//@   requires slotsbound: deref(set.Spec.Replicas) + card(slotsAnn(ifaceOf(set, "*apps.StatefulSet"))) <= MaxInt32
+//@   requires podsbound: len(pods) + deref(set.Spec.Replicas) + card(slotsAnn(ifaceOf(set, "*apps.StatefulSet"))) < MaxInt32
+//@   requires snapalloc: forall k int :: {pods[k]} 0 <= k && k < len(pods) ==> pods[k] != nil && allocated(pods[k])
+//@   requires snapdistinct: forall i int, j int :: {pods[i], pods[j]} 0 <= i && i < j && j < len(pods) ==> pods[i] != pods[j] && (ordOf(pods[i]) >= 0 ==> ordOf(pods[i]) != ordOf(pods[j]))
+//@   requires snapphase: forall k int :: {pods[k]} 0 <= k && k < len(pods) ==> isCreatedS(pods[k])
+//@   profile defaulted requires set.Spec.UpdateStrategy.Type == "RollingUpdate" || set.Spec.UpdateStrategy.Type == "OnDelete"
+//@   profile defaulted requires set.Spec.UpdateStrategy.RollingUpdate != nil ==> set.Spec.UpdateStrategy.RollingUpdate.Partition != nil && deref(set.Spec.UpdateStrategy.RollingUpdate.Partition) >= 0
+//@   at entry: ghost gSnap = pods; ghost gR = deref(set.Spec.Replicas); ghost gStrategy = set.Spec.UpdateStrategy.Type
+//@   at entry: ghost gPartition = ite(set.Spec.UpdateStrategy.RollingUpdate == nil, 0, deref(set.Spec.UpdateStrategy.RollingUpdate.Partition))
+//@   at entry: ghost gCurRev = currentRevision.Name; ghost gUpdRev = updateRevision.Name; ghost gMonotonic = set.Spec.PodManagementPolicy != "Parallel"
+//@   at entry: ghost gDeleting = set.DeletionTimestamp != nil; ghost gNact = 0; ghost gActOrd = 0 - 1; ghost gUpdDeletes = 0
+//@   at entry: ghost gCreated = emptyset(); ghost gReplaceDue = emptyset(); ghost gDeleted = emptyset(); ghost gAlloc0 = allocMark()
+//@   at call GetDeleteSlots#1 after: ghost gS = dom(deleteSlots)
+//@   ghost var cpos map[int]int     -- position in condemned of snapshot pod k (witness for "every condemned snapshot pod is in the list")
+//@   ghost var sortPerm map[int]int
+//@   ghost var sortPinv map[int]int
+//@   at call append#1 before: ghost cpos[i] = len(condemned)
+//@   ensures statusp != nil || err != nil
+//@   profile defaulted ensures [C03] replaced: err == nil ==> (forall o int :: {gReplaceDue[o]} gReplaceDue[o] ==> gCreated[o])
+//@   profile defaulted ensures [C05] oneordinal: gMonotonic ==> gNact <= 2 && (gNact == 2 ==> (exists o int :: gReplaceDue[o] && gCreated[o] && gActOrd == o))
+//@   profile defaulted ensures [C07,C14] oneupdate: gUpdDeletes <= 1
+//@   profile defaulted ensures [C11] deletinghandsoff: gDeleting ==> gNact == 0
+//@   profile defaulted ensures [C14] burstcreates: err == nil && !gMonotonic && !gDeleting ==> (forall o int32 :: {gCreated[o]} vacant(o) ==> gCreated[o])
+//@   profile defaulted ensures [C14] burstdeletes: err == nil && !gMonotonic && !gDeleting ==> (forall k int :: {gSnap[k]} 0 <= k && k < len(gSnap) && condemnedP(gSnap[k]) && !isTerminatingS(gSnap[k]) ==> gDeleted[gSnap[k]])
+//@   loop 1 "range pods"
+//@     invariant len(replicas) == replicaCount && 0 <= len(condemned) && len(condemned) <= i
+//@     invariant statusrange: status.Replicas == i && 0 <= status.ReadyReplicas && status.ReadyReplicas <= i && 0 <= status.CurrentReplicas && status.CurrentReplicas <= i && 0 <= status.UpdatedReplicas && status.UpdatedReplicas <= i
+//@     invariant placed: forall o int :: {replicas[o]} 0 <= o && o < replicaCount && replicas[o] != nil ==> inSnap(replicas[o]) && ordOf(replicas[o]) == o && desiredG(o)
+//@     invariant [C03,C05,C14] condemnedok: forall j int :: {condemned[j]} 0 <= j && j < len(condemned) ==> condemned[j] != nil && condemnedP(condemned[j])
+//@     invariant [C01,C04,C05,C07,C14] occupied: forall k int :: {pods[k]} 0 <= k && k < i && desiredG(ordOf(pods[k])) ==> replicas[ordOf(pods[k])] == pods[k]
+//@     invariant [C05,C14] condemnedall: forall k int :: {pods[k]} 0 <= k && k < i && condemnedP(pods[k]) ==> 0 <= cpos[k] && cpos[k] < len(condemned) && condemned[cpos[k]] == pods[k]
+//@   loop 2 "for ord := 0; ord < replicaCount"
+//@     invariant 0 <= ord && ord <= replicaCount && len(replicas) == replicaCount
+//@     invariant alloc: forall o int :: {replicas[o]} 0 <= o && o < replicaCount ==> allocated(replicas[o])
+//@     invariant placedord: forall o int :: {replicas[o]} 0 <= o && o < replicaCount && replicas[o] != nil ==> ordOf(replicas[o]) == o && (inSnap(replicas[o]) || isNewP(replicas[o]))
+//@     invariant [C03,C05,C07] snapdesired: forall o int :: {replicas[o]} 0 <= o && o < replicaCount && replicas[o] != nil && inSnap(replicas[o]) ==> desiredG(o)
+//@     invariant [C01,C04] onlydesired: forall o int :: {replicas[o]} 0 <= o && o < replicaCount && replicas[o] != nil ==> desiredG(o) && (inSnap(replicas[o]) || vacant(o))
+//@     invariant [C01,C04,C05,C07,C14] filled: forall o int :: {replicas[o]} 0 <= o && o < ord && desiredG(o) ==> replicas[o] != nil
+//@     invariant [C01,C04,C05,C07,C14] occupied: forall k int :: {pods[k]} 0 <= k && k < len(pods) && desiredG(ordOf(pods[k])) ==> replicas[ordOf(pods[k])] == pods[k]
+//@   at call Sort#1 after: assert [C03,C05,C14] condemnedok: forall j int :: {condemned[j]} 0 <= j && j < len(condemned) ==> condemned[j] != nil && condemnedP(condemned[j])
+//@   at call Sort#1 after: assert [C05,C14] condemnedall: forall k int :: {pods[k]} 0 <= k && k < len(pods) && condemnedP(pods[k]) ==> 0 <= sortPinv[cpos[k]] && sortPinv[cpos[k]] < len(condemned) && condemned[sortPinv[cpos[k]]] == pods[k]
+//@   at call Sort#1 after: assert [C05] sorted: forall a int, b int :: {condemned[a], condemned[b]} 0 <= a && a < b && b < len(condemned) ==> ordOf(condemned[a]) <= ordOf(condemned[b])
+//@   loop 3 "range replicas"
+//@     invariant unhealthy >= 0 && (unhealthy > 0 ==> firstUnhealthyPod != nil)
+//@   loop 4 "range condemned"
+//@     invariant unhealthy >= 0 && (unhealthy > 0 ==> firstUnhealthyPod != nil)
+//@     invariant counted: forall j int :: {condemned[j]} 0 <= j && j < i && !isHealthyS(condemned[j]) ==> unhealthy > 0
+//@   loop 5 "range replicas"
+//@     invariant len(replicas) == replicaCount && !gDeleting && gUpdDeletes == 0
+//@     invariant alloc: forall o int :: {replicas[o]} 0 <= o && o < replicaCount ==> allocated(replicas[o])
+//@     invariant statusrange: 0 - i <= status.Replicas && status.Replicas <= len(pods) + i && 0 - i <= status.CurrentReplicas && status.CurrentReplicas <= len(pods) + i && 0 - i <= status.UpdatedReplicas && status.UpdatedReplicas <= len(pods) + i
+//@     invariant placedord: forall o int :: {replicas[o]} {count(gS, 0, o)} 0 <= o && o < replicaCount && replicas[o] != nil ==> ordOf(replicas[o]) == o && (inSnap(replicas[o]) || isNewP(replicas[o]))
+//@     invariant [C03,C05,C07] snapdesired: forall o int :: {replicas[o]} 0 <= o && o < replicaCount && replicas[o] != nil && inSnap(replicas[o]) ==> desiredG(o)
+//@     invariant [C01,C04] onlydesired: forall o int :: {replicas[o]} 0 <= o && o < replicaCount && replicas[o] != nil ==> desiredG(o)
+//@     invariant [C01,C04] pending: forall o int :: {replicas[o]} i <= o && o < replicaCount && replicas[o] != nil && !inSnap(replicas[o]) ==> vacant(o)
+//@     invariant [C01,C04,C05,C07,C14] filled: forall o int :: {replicas[o]} {count(gS, 0, o)} 0 <= o && o < replicaCount && desiredG(o) ==> replicas[o] != nil
+//@     invariant [C04] createdlow: forall o int :: {gCreated[o]} gCreated[o] ==> 0 <= o && o < i
+//@     invariant [C03] replaced: forall o int :: {gReplaceDue[o]} gReplaceDue[o] ==> gCreated[o]
+//@     invariant [C05] mono: gMonotonic ==> gNact == 0 && (forall o int :: {replicas[o]} {count(gS, 0, o)} 0 <= o && o < i && replicas[o] != nil ==> inSnap(replicas[o]) && isRunningAndReadyS(replicas[o]) && !isTerminatingS(replicas[o]))
+//@     invariant [C03,C07] settled: forall o int :: {replicas[o]} 0 <= o && o < i && replicas[o] != nil ==> !isFailedS(replicas[o]) && !isSucceededS(replicas[o])
+//@     invariant [C14] burstcreated: !gMonotonic ==> (forall o int :: {gCreated[o]} 0 <= o && o < i && vacant(o) ==> gCreated[o])
+//@   loop 6 "for target := len(condemned) - 1; target >= 0"
+//@     invariant 0 - 1 <= target && target < len(condemned) && !gDeleting && gUpdDeletes == 0
+//@     invariant statusrange: 0 - replicaCount - (len(condemned) - 1 - target) <= status.CurrentReplicas && 0 - replicaCount - (len(condemned) - 1 - target) <= status.UpdatedReplicas
+//@     invariant [C05] mono: gMonotonic ==> gNact == 0 && target == len(condemned) - 1
+//@     invariant [C03] replaced: forall o int :: {gReplaceDue[o]} gReplaceDue[o] ==> gCreated[o]
+//@     invariant [C14] burstdeleted: !gMonotonic ==> (forall t int :: {condemned[t]} target < t && t < len(condemned) && !isTerminatingS(condemned[t]) ==> gDeleted[condemned[t]])
+//@   loop 7 "for target := len(replicas) - 1; target >= updateMin"
+//@     invariant target <= len(replicas) - 1 && gUpdDeletes == 0 && (gMonotonic ==> gNact == 0)
+//@     invariant [C07] higherupdated: forall o int :: {replicas[o]} {count(gS, 0, o)} target < o && o < len(replicas) && replicas[o] != nil ==> revOf(replicas[o]) == gUpdRev && isHealthyS(replicas[o])
